@@ -684,6 +684,312 @@ theorem a64_add_imm_changes (n : Int) :
     IsaOp.get, IsaOp.set, arith, pick, indexed, indexedFrom, isDst, isSrcDst, destName, dedupKeys, changeOf, tX,
     show Gen.opIndexBase = 1 from rfl, show Gen.regInitValue = 0 from rfl]
 
+/-! ## AArch64: the lookup never reads a register's number, so the statements hold for ALL registers -/
+
+def renameR (f : Txt → Txt) (r : PReg) : PReg := { r with name := f r.name }
+
+/-- the same operand with other register numbers -/
+def renameP (f : Txt → Txt) : POperand → POperand
+  | .reg r => .reg (renameR f r)
+  | .mem m => .mem { m with base := m.base.map (renameR f), index := m.index.map (renameR f) }
+  | o => o
+
+theorem checkOperand_a64_rename (f : Txt → Txt) (e : EOperand) (o : POperand) :
+    Match.checkOperand .a64 e (renameP f o) = Match.checkOperand .a64 e o := by
+  cases o with
+  | reg r => cases e <;> simp [renameP, renameR, Match.checkOperand, Match.checkA64, Match.a64RegType]
+  | mem m =>
+    cases e with
+    | mem b off i s pre post =>
+      simp only [renameP, Match.checkOperand, Match.checkA64, Match.a64MemType]
+      cases hb : m.base <;> cases hi : m.index <;> simp [Match.a64BaseOk, Match.a64IndexOk, renameR]
+    | _ => simp [renameP, Match.checkOperand, Match.checkA64]
+  | _ => rfl
+
+theorem matchOperands_a64_rename (f : Txt → Txt) (es : List EOperand) (os : List POperand) :
+    Match.matchOperands .a64 es (os.map (renameP f)) = Match.matchOperands .a64 es os := by
+  induction es generalizing os with
+  | nil => cases os <;> simp [Match.matchOperands]
+  | cons e es ih =>
+    cases os with
+    | nil => simp [Match.matchOperands]
+    | cons o os => simp [Match.matchOperands, checkOperand_a64_rename, ih]
+
+/-- **the AArch64 lookup is blind to register numbers** (only prefix, shape and lanes are compared) -/
+theorem lookup_a64_rename (f : Txt → Txt) (db : List IsaEntry) (name : Txt) (os : List POperand) :
+    lookup .a64 db name (os.map (renameP f)) = lookup .a64 db name os := by
+  have h : ∀ n, getInstruction .a64 db n (os.map (renameP f)) = getInstruction .a64 db n os := by
+    intro n
+    simp [getInstruction, Match.entryMatches, matchOperands_a64_rename]
+  simp [lookup, h]
+
+/-- **`add xd, xn, #imm` for ALL registers and ALL immediates** (isa/aarch64.yml): the destination is reported as
+    `xn + imm` — under the SOURCE register's name, also when `d = n` (pointer increment). -/
+theorem a64_add_imm_changes_all (d s : Txt) (n : Int) :
+    regChanges .a64 Gen.isaDbA64 (some nAdd) [oA64 d, oA64 s, oImmA64 n]
+        (assignSrcDst .a64 Gen.isaDbA64 (some nAdd) [oA64 d, oA64 s, oImmA64 n]).sem false =
+      .ok [(120 :: d, some ⟨some (120 :: s), some n⟩)] := by
+  have hk : entryIs (lookup .a64 Gen.isaDbA64 nAdd [pA64 [48], pA64 [49], pImmA64])
+      [⟨false, true⟩, ⟨true, false⟩, ⟨true, false⟩]
+      (some [.setValue 1 (.add (.val 2) (.val 3)), .setName 1 2]) = true := by decide +kernel
+  have hren : lookup .a64 Gen.isaDbA64 nAdd [pA64 d, pA64 s, pImmA64] =
+      lookup .a64 Gen.isaDbA64 nAdd [pA64 [48], pA64 [49], pImmA64] := by
+    have := lookup_a64_rename (fun t => if t = [48] then d else s) Gen.isaDbA64 nAdd [pA64 [48], pA64 [49], pImmA64]
+    simpa [renameP, renameR, pA64, pImmA64] using this
+  rw [← hren] at hk
+  obtain ⟨e, hl, hr, hp, hb, hf⟩ := entryIs_spec _ _ _ hk
+  have hl' : lookup .a64 Gen.isaDbA64 nAdd ([oA64 d, oA64 s, oImmA64 n].map (·.p)) = some e := by
+    simpa [oImmA64, oA64] using hl
+  have hsem : (assignSrcDst .a64 Gen.isaDbA64 (some nAdd) [oA64 d, oA64 s, oImmA64 n]).sem =
+      applyEntry e [oA64 d, oA64 s, oImmA64 n] := by
+    simp only [assignSrcDst, semOf, roles_entry_direct _ _ _ _ e hl']
+    exact writeBack_noMem e _ (by simp [oA64, oImmA64, pA64, pImmA64, isMemP])
+  rw [reg_changes_program .a64 Gen.isaDbA64 nAdd _ _ e _ hl' hp (by simp [oImmA64, oA64, pImmA64, pA64])]
+  rw [hsem, destNames_entry e _ hb hf, hr]
+  by_cases hds : d = s
+  · subst hds
+    simp [bindOperands, oImmA64, oA64, pImmA64, pA64, valInt, nameGet, nameSet, statePut, fullName, exec, step, eval,
+      IsaOp.get, IsaOp.set, arith, pick, indexed, indexedFrom, isDst, isSrcDst, destName, dedupKeys, changeOf, tX,
+      show Gen.opIndexBase = 1 from rfl, show Gen.regInitValue = 0 from rfl]
+  · have hne : (120 :: d == 120 :: s) = false := by simpa using hds
+    simp [bindOperands, oImmA64, oA64, pImmA64, pA64, valInt, nameGet, nameSet, statePut, fullName, exec, step, eval,
+      IsaOp.get, IsaOp.set, arith, pick, indexed, indexedFrom, isDst, isSrcDst, destName, dedupKeys, changeOf, tX,
+      hne, show Gen.opIndexBase = 1 from rfl, show Gen.regInitValue = 0 from rfl]
+
+/-! ## the pre-indexed write-back -/
+
+theorem preIndexed_append_pre (t : Track) (pre rest : List Opnd)
+    (h : ∀ x ∈ pre, ∀ m', x.p = .mem m' → m'.pre = false) :
+    preIndexed false t (pre ++ rest) = preIndexed false t rest := by
+  induction pre generalizing t with
+  | nil => rfl
+  | cons x xs ih =>
+    have hx := h x (by simp)
+    have hxs : ∀ y ∈ xs, ∀ m', y.p = .mem m' → m'.pre = false := fun y hy => h y (by simp [hy])
+    cases hp : x.p with
+    | mem m' => simp [preIndexed, hp, hx m' hp, ih _ hxs]
+    | _ => simp [preIndexed, hp, ih _ hxs]
+
+/-- **pre-indexed access** (`ldr x1, [x2, #v]!`, entry without operation): the base register is reported as
+    `base = base + v`, with the offset's own sign; every other destination register is unknown. -/
+theorem reg_changes_pre_indexed (isa : Isa) (db : List IsaEntry) (name : Txt) (sem : Sem) (pre : List Opnd) (o : Opnd)
+    (rest : List Opnd) (m : PMem) (b : PReg) (v : Int)
+    (hop : (lookup isa db name ((pre ++ o :: rest).map (·.p))).bind (·.operation) = none)
+    (hpre : ∀ x ∈ pre ++ rest, ∀ m', x.p = .mem m' → m'.pre = false)
+    (ho : o.p = .mem m) (hp : m.pre = true) (hb : m.base = some b) (hv : o.off = .imm (.int v)) :
+    regChanges isa db (some name) (pre ++ o :: rest) sem false =
+      .ok (dedupKeys ((destNames sem).map fun r =>
+        (r, if fullName b.pfx b.name = r then some { name := some (fullName b.pfx b.name), value := some v } else none))) := by
+  have h1 : ∀ x ∈ pre, ∀ m', x.p = .mem m' → m'.pre = false := fun x hx => hpre x (by simp [hx])
+  have h2 : ∀ x ∈ rest, ∀ m', x.p = .mem m' → m'.pre = false := fun x hx => hpre x (by simp [hx])
+  have hch : ∀ r, changeOf (Track.mk [(fullName b.pfx b.name, Gen.preIndexedOp)]
+        [(Gen.preIndexedOp, OpState.mk (some (fullName b.pfx b.name)) (some v))]) r =
+      if fullName b.pfx b.name = r then some (OpState.mk (some (fullName b.pfx b.name)) (some v)) else none := by
+    intro r
+    by_cases hr : fullName b.pfx b.name = r
+    · simp [changeOf, nameGet, IsaOp.get, hr]
+    · simp [changeOf, nameGet, hr]
+  simp only [regChanges, Bool.false_eq_true, if_false, hop, Option.isSome_none]
+  rw [preIndexed_append_pre _ _ _ h1]
+  simp only [preIndexed, ho, hp, if_true, hb, hv, valInt, Bool.false_eq_true, if_false]
+  rw [preIndexed_none _ _ _ h2]
+  split <;> simp_all
+
+/-! ## `get_reg_changes` cannot hit its "pre-indexed instruction has operation set" error on the shipped databases -/
+
+theorem arith_ne_valueError (f : Int → Int → Int) (a b : Option Int) : arith f a b ≠ .error .valueError := by
+  cases a <;> cases b <;> simp [arith]
+
+theorem eval_ne_valueError (s : State) (e : Expr) : eval s e ≠ .error .valueError := by
+  induction e with
+  | lit n => simp [eval]
+  | val n => simp only [eval]; split <;> simp
+  | add a b iha ihb =>
+    simp only [eval]
+    split
+    · next err he => intro h; injection h with h; subst h; exact iha he
+    · split
+      · next err he => intro h; injection h with h; subst h; exact ihb he
+      · exact arith_ne_valueError _ _ _
+  | sub a b iha ihb =>
+    simp only [eval]
+    split
+    · next err he => intro h; injection h with h; subst h; exact iha he
+    · split
+      · next err he => intro h; injection h with h; subst h; exact ihb he
+      · exact arith_ne_valueError _ _ _
+
+theorem step_ne_valueError (s : State) (st : Stmt) : step s st ≠ .error .valueError := by
+  cases st with
+  | setValue n e =>
+    simp only [step]
+    split
+    · next err he => intro h; injection h with h; subst h; exact eval_ne_valueError s e he
+    · split <;> simp
+  | setName n m =>
+    simp only [step]
+    split
+    · simp
+    · split
+      · simp
+      · split <;> simp
+
+theorem exec_ne_valueError (s : State) (p : Prog) : exec s p ≠ .error .valueError := by
+  induction p generalizing s with
+  | nil => simp [exec]
+  | cons st rest ih =>
+    simp only [exec]
+    split
+    · next err he => intro h; injection h with h; subst h; exact step_ne_valueError s st he
+    · exact ih _
+
+theorem bindOperands_ne_valueError (i : Nat) (roles : List Role) (ops : List Opnd) (t : Track) :
+    bindOperands i roles ops t ≠ .error .valueError := by
+  induction ops generalizing i roles t with
+  | nil => simp [bindOperands]
+  | cons o os ih =>
+    unfold bindOperands
+    cases hp : o.p with
+    | reg r => simp only []; exact ih _ _ _
+    | imm a b c =>
+      simp only []
+      cases hv : o.val <;> simp [valInt, ih]
+    | _ => simp only []; exact ih _ _ _
+
+theorem valInt_ne_valueError (v : Val) : valInt v ≠ .error .valueError := by
+  cases v <;> simp [valInt]
+
+theorem preIndexed_false_ne_valueError (t : Track) (ops : List Opnd) : preIndexed false t ops ≠ .error .valueError := by
+  induction ops generalizing t with
+  | nil => simp [preIndexed]
+  | cons o os ih =>
+    unfold preIndexed
+    cases hp : o.p with
+    | mem m =>
+      simp only [Bool.false_eq_true, if_false]
+      cases hpre : m.pre with
+      | false => simp only [Bool.false_eq_true, if_false]; exact ih _
+      | true =>
+        simp only [if_true]
+        cases hb : m.base with
+        | none => simp
+        | some b =>
+          simp only []
+          cases ho : o.off with
+          | imm v =>
+            simp only []
+            cases hv : valInt v with
+            | error e =>
+              simp only []
+              intro h
+              injection h with h
+              subst h
+              exact valInt_ne_valueError _ hv
+            | ok x => simp only []; exact ih _
+          | absent => simp
+          | obj => simp
+    | _ => simp only []; exact ih _
+
+def regOrImm : EOperand → Bool
+  | .reg _ _ _ => true
+  | .imm _ => true
+  | _ => false
+
+/-- a register or immediate pattern never matches a memory operand -/
+theorem matchOperands_noMem (isa : Isa) (es : List EOperand) (os : List POperand)
+    (h : Match.matchOperands isa es os = true) (hes : es.all regOrImm = true) : os.any isMemP = false := by
+  induction es generalizing os with
+  | nil =>
+    cases os with
+    | nil => rfl
+    | cons o os => simp [Match.matchOperands] at h
+  | cons e es ih =>
+    cases os with
+    | nil => simp [Match.matchOperands] at h
+    | cons o os =>
+      simp only [Match.matchOperands, Bool.and_eq_true] at h
+      simp only [List.all_cons, Bool.and_eq_true] at hes
+      simp only [List.any_cons, Bool.or_eq_false_iff]
+      refine ⟨?_, ih os h.2 hes.2⟩
+      cases o with
+      | mem m =>
+        have := h.1
+        cases e <;> cases isa <;> simp_all [Match.checkOperand, Match.checkX86, Match.checkA64, regOrImm]
+      | _ => rfl
+
+theorem getInstruction_match (isa : Isa) (db : List IsaEntry) (name : Txt) (ops : List POperand) (e : IsaEntry)
+    (h : getInstruction isa db name ops = some e) : Match.matchOperands isa e.e.operands ops = true := by
+  unfold getInstruction at h
+  have h1 := List.find?_some h
+  simp only [Match.entryMatches, Bool.and_eq_true] at h1
+  exact h1.2
+
+theorem lookup_match (isa : Isa) (db : List IsaEntry) (name : Txt) (ops : List POperand) (e : IsaEntry)
+    (h : lookup isa db name ops = some e) : Match.matchOperands isa e.e.operands ops = true := by
+  unfold lookup at h
+  split at h
+  · next e' he' => injection h with h; subst h; exact getInstruction_match isa db name ops _ he'
+  · split at h
+    · exact getInstruction_match isa db _ ops e h
+    · cases h
+
+theorem opEntryOk_spec (e : IsaEntry) (p : Prog) (h : opEntryOk e = true) (hp : e.operation = some p) :
+    e.e.operands.all regOrImm = true := by
+  simp only [opEntryOk, hp, Option.isNone_some, Bool.false_or] at h
+  rw [List.all_eq_true] at h ⊢
+  intro x hx
+  have := h x hx
+  cases x <;> simp_all [regOrImm]
+
+/-- **no ValueError**: in a database whose operations sit on register/immediate forms only (both shipped databases,
+    `db_operations_on_register_forms`), the full query never raises "ISA information for pre_indexed instruction has
+    operation set": an instruction that selects an entry with an operation has no memory operand at all. -/
+theorem reg_changes_no_value_error (isa : Isa) (db : List IsaEntry) (hdb : db.all opEntryOk = true)
+    (name : Txt) (ops : List Opnd) (sem : Sem) :
+    regChanges isa db (some name) ops sem false ≠ .error .valueError := by
+  simp only [regChanges, Bool.false_eq_true, if_false]
+  cases hl : lookup isa db name (ops.map (·.p)) with
+  | none =>
+    simp only [Option.bind_none, Option.isSome_none]
+    split
+    · next err he => intro h; injection h with h; subst h; exact preIndexed_false_ne_valueError _ _ he
+    · simp
+  | some e =>
+    cases hp : e.operation with
+    | none =>
+      simp only [Option.bind_some, hp, Option.isSome_none]
+      split
+      · next err he => intro h; injection h with h; subst h; exact preIndexed_false_ne_valueError _ _ he
+      · simp
+    | some p =>
+      have hin := (lookup_some isa db name _ e hl).1
+      have hok := List.all_eq_true.mp hdb e hin
+      have hnm := matchOperands_noMem isa _ _ (lookup_match isa db name _ e hl) (opEntryOk_spec e p hok hp)
+      have hpre : ∀ o ∈ ops, ∀ m, o.p = .mem m → m.pre = false := by
+        intro o ho m hm
+        rw [List.any_eq_false] at hnm
+        have := hnm o.p (List.mem_map.mpr ⟨o, ho, rfl⟩)
+        simp [hm, isMemP] at this
+      simp only [Option.bind_some, hp, Option.isSome_some, preIndexed_none _ _ _ hpre]
+      cases hb : bindOperands 0 e.roles ops {} with
+      | error err =>
+        simp only []
+        intro h; injection h with h; subst h; exact bindOperands_ne_valueError _ _ _ _ hb
+      | ok t =>
+        simp only []
+        cases hx : exec t.state p with
+        | error err =>
+          simp only []
+          intro h; injection h with h; subst h; exact exec_ne_valueError _ _ hx
+        | ok s => simp
+
+/-- … instantiated with the two shipped databases -/
+theorem shipped_no_value_error (name : Txt) (ops : List Opnd) (sem : Sem) :
+    regChanges .x86 Gen.isaDbX86 (some name) ops sem false ≠ .error .valueError ∧
+    regChanges .a64 Gen.isaDbA64 (some name) ops sem false ≠ .error .valueError :=
+  ⟨reg_changes_no_value_error _ _ db_operations_on_register_forms.1 _ _ _,
+   reg_changes_no_value_error _ _ db_operations_on_register_forms.2 _ _ _⟩
+
 /-! ## non-vacuity: the hypotheses are satisfiable, and the shipped databases give the expected roles -/
 
 deriving instance DecidableEq for Except
@@ -766,6 +1072,14 @@ example : regChanges .a64 Gen.isaDbA64 (some nLdr) [oA64 [49], oMemPost]
 example : regChanges .a64 Gen.isaDbA64 (some nLdr) [oA64 [49], oMemPre]
       (assignSrcDst .a64 Gen.isaDbA64 (some nLdr) [oA64 [49], oMemPre]).sem false =
     .ok [(120 :: [49], none), (120 :: [50], some ⟨some (120 :: [50]), some 8⟩)] := by decide +kernel
+-- reg_changes_no_value_error needs its hypothesis: an operation on a memory form does raise for a pre-indexed access
+def badDb : List IsaEntry :=
+  [{ e := { name := [76, 68, 82], operands := [.reg none (some tX) none, .mem (.str [42]) (.str [42]) (.str [42]) (.str [42]) (.str [42]) (.str [42])] },
+     roles := [⟨false, true⟩, ⟨true, false⟩], operation := some [.setValue 1 (.lit 0)] }]
+example : badDb.all opEntryOk = false ∧
+    regChanges .a64 badDb (some nLdr) [oA64 [49], oMemPre] (assignSrcDst .a64 badDb (some nLdr) [oA64 [49], oMemPre]).sem false =
+      .error .valueError := by
+  constructor <;> decide +kernel
 -- the operation theorems at concrete values
 example : regChanges .x86 Gen.isaDbX86 (some nAddq) [oImmX86 (-8), oX86 rax]
       (assignSrcDst .x86 Gen.isaDbX86 (some nAddq) [oImmX86 (-8), oX86 rax]).sem false =
